@@ -15,3 +15,15 @@ cls('ControllerApplication',
     _name=TRef('Name'), _device_address_preferred=TOpt(INT), _device_address_announced=INT,
     _device_address=TOpt(INT), _device_address_state=INT, _ecu=TOpt(TRef('ElectronicControlUnit')),
     _subscribers_request=TList(FUNC), _subscribers_acknowledge=TList(FUNC), _started=BOOL)
+
+# ---- ElectronicControlUnit, listeners, timers
+cls('ElectronicControlUnit',
+    _bus=TOpt(TRef('Bus')), _subscribers=TList(TRef('Subscriber')), _timer_events=TList(TRef('TimerEvent')),
+    j1939_dll=TRef('J1939_21'), _job_thread_wakeup_queue=TQueue(INT), _notifier=TOpt(TRef('Notifier')),
+    _listeners=TList(TRef('MessageListener')))
+rec('Subscriber', cb=TFunc(), dev_adr=TUnion(NONE, INT, TFunc(ret=BOOL, pure=True)))
+rec('TimerEvent', delta_time=REAL, callback=TFunc(), deadline=REAL, cookie=ANY)
+cls('MessageListener', ecu=TRef('ElectronicControlUnit'), stopped=BOOL)
+# python-can message object (external class: only the attributes the listener reads)
+cls('CanMessage', is_error_frame=BOOL, is_remote_frame=BOOL, is_extended_id=BOOL, arbitration_id=INT,
+    data=OCTETS, timestamp=REAL)
